@@ -98,6 +98,12 @@ def draw_case(rng: numpy.random.Generator, small: bool = True, force: Optional[d
             # well inside the default residual tolerance; the filling (a least-squares compromise) must still be applied
             noisy = True
             ds.static_table[:, -n_extra:] += rng.uniform(0.02, 0.12, size=(nv, n_extra)) * rng.choice([-1.0, 1.0], size=(nv, n_extra))
+    # ---- Γ acoustic branches: zero / slightly negative (synth default) or small POSITIVE and smooth in V, as written by DFPT
+    #      codes without an exact acoustic sum rule; cij's phonon part skips these three slots either way, the QHA layer counts them
+    acoustic = force.get("acoustic", "positive" if rng.random() < 0.25 else "nonpositive")
+    if acoustic == "positive":
+        a0 = rng.uniform(4.0, 25.0, size=3); g0 = rng.uniform(0.5, 2.0, size=3)
+        ds.freqs[:, 0, :3] = numpy.round(a0[None] * (ds.volumes[:, None] / ds.volumes[0]) ** (-g0[None]), 6)
     # ---- grid settings
     nt = int(force.get("NT", rng.integers(1, 7)))
     dt = float(force.get("DT", [50.0, 100.0, 150.0, 250.0][int(rng.integers(0, 4))]))
@@ -122,7 +128,7 @@ def draw_case(rng: numpy.random.Generator, small: bool = True, force: Optional[d
     ds.settings["elast"]["settings"]["mode_gamma"] = {"interpolator": "lsq_poly",
                                                       "order": int(min(3, max(1, nv - 2)))}
     desc = {"nv": nv, "nq": nq, "na": na, "system": system, "lattice": lattice, "nkeys": len(ds.static_keys), "redundant_keys": n_extra, "redundant_noisy": noisy,
-            "static_mesh": static_mesh, "law": law,
+            "static_mesh": static_mesh, "law": law, "acoustic": acoustic,
             "NT": nt, "DT": dt, "NTV": ntv, "volume_ratio": ratio, "P_MIN": p_min, "DELTA_P": dp,
             "p_last_est_gpa": p_last_gpa}
     return ds, desc
@@ -452,3 +458,39 @@ def fine_grid(volumes, ntv, ratio):
     s_lo = eulerian_strain(vmax, vmax * ratio); s_hi = eulerian_strain(vmax, vmin / ratio)
     s = numpy.linspace(s_lo, s_hi, ntv)
     return vmax * (2 * s + 1) ** (-1.5)
+
+
+# ----------------------------------------------------------------------------- the qha package run directly (oracle side)
+# packaged defaults of cij's `qha.settings` block as documented (docs/usage/settings; cij/data/default/settings.yaml is what the
+# translator pins for C16) — typed here so that the oracle does not go through cij's configuration code
+CIJ_QHA_DEFAULTS = {"T_MIN": 0, "DT": 100, "DT_SAMPLE": 100, "NT": 16, "P_MIN": 0, "DELTA_P": 1, "DELTA_P_SAMPLE": 1, "order": 3,
+                    "static_only": False, "volume_ratio": 1.2}
+
+
+def qha_direct(files: Dict[str, str]) -> dict:
+    """The third-party qha package on the phonon file itself — its own reader, its own Calculator, no cij adapter in between.
+    Returns P(T,V), C_V(T,V), F(T,V) (atomic units), V(T,P) and the grids: what "the QHA layer" computes for the tabulated
+    spectrum.  (qha is external and trusted; cij's adapter must hand over exactly these.)"""
+    import qha.calculator
+    from qha.settings import DEFAULT_SETTINGS
+    st = yaml.safe_load(files["settings.yaml"])
+    s = dict(DEFAULT_SETTINGS)
+    s.update(CIJ_QHA_DEFAULTS)
+    s.update((st.get("qha") or {}).get("settings") or {})
+    name = (st.get("qha") or {}).get("input", "input01")
+    d = tempfile.mkdtemp(prefix="qhadirect_")
+    try:
+        path = os.path.join(d, os.path.basename(name))
+        with open(path, "w") as fp:
+            fp.write(files[name])
+        s["input"] = path
+        with quiet():
+            c = qha.calculator.Calculator(s)
+            c.read_input()
+            c.refine_grid()
+            out = {"p_tv_au": numpy.array(c.p_tv_au), "cv_tv_au": numpy.array(c.cv_tv_au), "f_tv_ry": numpy.array(c.f_tv_ry),
+                   "v_array": numpy.array(c.finer_volumes_bohr3), "t_array": numpy.array(c.temperature_array),
+                   "v_tp_bohr3": numpy.array(c.v_tp_bohr3), "p_array_au": numpy.array(c.desired_pressures)}
+        return out
+    finally:
+        shutil.rmtree(d, ignore_errors=True)
